@@ -54,7 +54,9 @@ Definition prop_same_value (args : list bytes) : bytes :=
       | Some v, Some out =>
           match parse_json out with
           | None => bs "FAIL output is not valid JSON"
-          | Some v' => if json_same v v' && json_same v' v then bs "ok" else bs "FAIL output denotes another value"
+          | Some v' =>
+              if negb (json_nodup v) then bs "ok" (* duplicate keys: outside the property's domain *)
+              else if json_same v v' && json_same v' v then bs "ok" else bs "FAIL output denotes another value"
           end
       end
   | _ => bs "badargs"
@@ -66,7 +68,12 @@ Definition prop_canonical_form (args : list bytes) : bytes :=
   | [t; obs] =>
       match strip_ok obs with
       | None => bs "ok"
-      | Some out => if is_canonical_text out then bs "ok" else bs "FAIL output is not in canonical form"
+      | Some out =>
+          match parse_json t with
+          | Some v => if negb (json_nodup v) then bs "ok" (* duplicate keys: outside the domain *)
+                      else if is_canonical_text out then bs "ok" else bs "FAIL output is not in canonical form"
+          | None => bs "FAIL invalid input accepted"
+          end
       end
   | _ => bs "badargs"
   end.
@@ -101,7 +108,8 @@ Definition prop_unique (args : list bytes) : bytes :=
       match parse_json t1, parse_json t2 with
       | Some v1, Some v2 =>
           let same := json_same v1 v2 && json_same v2 v1 in
-          if is_prefix (bs "same:") obs then
+          if negb (json_nodup v1 && json_nodup v2) then bs "ok" (* outside the domain *)
+          else if is_prefix (bs "same:") obs then
             if same then bs "ok" else bs "FAIL different values, identical canonical bytes"
           else if is_prefix (bs "differ:") obs then
             if same then bs "FAIL same value, different canonical bytes" else bs "ok"
